@@ -4,6 +4,7 @@ import PrysmVerif.Model.C05
 # C05 — lemmas about the mask-and-return path (orthogonality from the character law, all-pass identity, additivity)
 -/
 open C03Lemmas
+open scoped C01
 namespace C03Lemmas
 open Model.C03 Model.C05
 variable {R V : Type} [Field R] [Field V]
